@@ -15,6 +15,7 @@ import TflModel.Driver.Verify
 import TflModel.Driver.Alt
 import TflModel.Driver.Initializers
 import TflModel.Driver.Units
+import TflModel.Driver.CrystalsScore
 /-! Line-protocol driver: one op per input line, one reply line per op.
 Imports only Mathlib-free `Model/*` and `Driver/*` modules, so it links as a native executable. -/
 open Tfl Tfl.Wire
@@ -34,7 +35,8 @@ def handlers : List (String × Handler) :=
   Tfl.Driver.Verify.handlers ++
   Tfl.Driver.Alt.handlers ++
   Tfl.Driver.Initializers.handlers ++
-  Tfl.Driver.Units.handlers
+  Tfl.Driver.Units.handlers ++
+  Tfl.Driver.CrystalsScore.handlers
 
 def handleLine (line : String) : String :=
   match (line.trimAscii.toString).splitOn " " with
